@@ -40,7 +40,7 @@ class Scenario:
         from recorder import Driver
         self.sc = sc
         n = sc.get('n', 3)
-        cfg = cl.Config(n=n, sync=('LIST', 'TIMEOUT'), t=sc.get('t', 2))
+        cfg = cl.Config(n=n, sync=('LIST', 'TIMEOUT'), t=sc.get('t', 2), auto_fence=bool(sc.get('auto_fence')))
         self.cfg = cfg
         opts = cfg.options()
         opts['conciliation_strategy'] = sc['strategy']
